@@ -141,7 +141,7 @@ func ShortPayload(a *types.Any, keep int) *types.Any {
 // ForeignArchErrno rewrites every errno payload of an encoded error as if
 // it had been sent by a peer of the same OS on another architecture whose
 // errno numbering differs: the Arch field names that architecture and the
-// number is shifted, while the text, the safe details and the predicate
+// number is remapped, while the text, the safe details and the predicate
 // flags stay what the sender computed. A correct receiver keeps such an
 // errno as an OpaqueErrno (text and predicates preserved) instead of
 // reviving the number with its own table. It returns the number of payloads
@@ -168,7 +168,19 @@ func ForeignArchErrno(data []byte) ([]byte, int) {
 				goos = goos[:i]
 			}
 			m.Arch = goos + ":mips64"
-			m.OrigErrno += 40
+			// the foreign table assigns other numbers: some collide with
+			// numbers that mean something else here (and satisfy other
+			// predicates), the rest are unused here
+			switch m.OrigErrno {
+			case 2: // ENOENT there is EEXIST's number here
+				m.OrigErrno = 17
+			case 17: // EEXIST -> EACCES
+				m.OrigErrno = 13
+			case 13, 1: // EACCES, EPERM -> ENOENT
+				m.OrigErrno = 2
+			default:
+				m.OrigErrno += 40
+			}
 			d.FullDetails = mustAny(m)
 			n++
 		case *errorspb.EncodedError:
